@@ -14,7 +14,7 @@
    The hypotheses that remain are premises of the theorems below (nothing is assumed globally). *)
 From stdpp Require Import gmap strings sorting.
 Require Import Grits.Base Grits.Forms Grits.Expand Grits.TcTop Grits.Runtime.
-Require Import Grits.proofs.RuntimeFacts Grits.proofs.Diamond Grits.proofs.Determinism Grits.proofs.AsyncSync Grits.proofs.DeterminismExamples.
+Require Import Grits.RuntimeFootprint Grits.proofs.RuntimeFacts Grits.proofs.Diamond Grits.proofs.Determinism Grits.proofs.AsyncSync Grits.proofs.DeterminismExamples.
 
 Theorem C03_step_is_move : forall md D F c ch, step md D F c ch = sres_of c (move_of md D F c ch).
 Proof. exact step_move. Qed.
